@@ -67,7 +67,7 @@ def run(ctx):
   rng = ctx.rng
   ctx.rule = ("(a) the code's own loss functions (NCA._loss_grad_lbfgs, MLKR._loss, LMNN._loss_grad) called on random "
               "(L, X, y) with k x d transformations incl. low rank k < d: value compared with the documented objective "
-              "evaluated in Coq on binary64 (1e-9), gradient compared with central differences of an independent evaluation; "
+              "evaluated in Coq on binary64 (1e-9), gradient compared with central differences of an independent evaluation, and for NCA and MLKR with the Coq gradient models of Model/NCAGrad.v (the ones C10_nca_gradient / C10_mlkr_gradient are about) on binary64; "
               "(b) fits with every init option: objective(result) not worse than objective(init) as recorded at the optimiser "
               "call, LMNN accepted objectives non-increasing, zero iterations return the initialisation.  non-trivial = more "
               "than one class / non-constant targets.")
@@ -149,13 +149,21 @@ def run(ctx):
                                                           gmat(np.array(grad).reshape(L.shape))))
     recs.append(dict(kind='nca_grad', L=L, X=X, y=y, loss=float(loss), grad=np.array(grad).reshape(L.shape), cscale=1.0))
     ctx.seen(('nca_grad', L.tolist(), X.tolist()), True)
+    # MLKR on the same points with real-valued targets
+    yr = fits.grid(data['yreg'], 6)
+    est = MLKR()
+    est.n_iter_ = 1
+    loss, grad = est._loss(L.ravel(), X, yr)
+    terms.append("(c10_mlkr_grad %d%%nat %d%%nat %s %s %s %s %s)" % (k, d, gmat(L), gmat(X), gvec(yr), fhex(loss),
+                                                           gmat(np.array(grad).reshape(L.shape))))
+    recs.append(dict(kind='mlkr_grad', L=L, X=X, y=yr, loss=float(loss), grad=np.array(grad).reshape(L.shape), cscale=1.0))
   ctx.sample(dict(kind=recs[0]['kind'], L=recs[0]['L'].tolist(), X=recs[0]['X'].tolist()[:3], impl_loss=recs[0]['loss']))
 
   def falsify(rec):
     L, X, y = rec['L'], rec['X'], rec['y']
     if rec['kind'] in ('nca', 'nca_grad'):
       f = lambda A: nca_doc(A, X, y)
-    elif rec['kind'] == 'mlkr':
+    elif rec['kind'] in ('mlkr', 'mlkr_grad'):
       f = lambda A: mlkr_doc(A, X, y)
     else:
       f = lambda A: lmnn_doc(A, X, y, rec['T'], rec['reg'])
@@ -181,7 +189,7 @@ def run(ctx):
   if ok:
     res = ctx.run_cases('c10', HEADER, terms, per_file=5, timeout=1200)
     for r, rec in zip(res, recs):
-      ctx.count('correspondence_gradient' if rec['kind'] == 'nca_grad' else 'correspondence_value', 1)
+      ctx.count('correspondence_gradient' if rec['kind'] in ('nca_grad', 'mlkr_grad') else 'correspondence_value', 1)
       if r is False:
         why = falsify(rec)
         if why:
@@ -190,7 +198,7 @@ def run(ctx):
         else:
           ctx.count('correspondence_value', 0, failures=1)
           ctx.break_tie('correspondence', 'c10_' + rec['kind'], "Coq evaluation of the documented objective%s differs from the code's value on L=%s" % (
-              ' / of the gradient model' if rec['kind'] == 'nca_grad' else '', rec['L'].tolist()))
+              ' / of the gradient model' if rec['kind'] in ('nca_grad', 'mlkr_grad') else '', rec['L'].tolist()))
   for rec in recs:
     if found:
       break
